@@ -1,10 +1,24 @@
 import RpmVerif.Driver.Bld
 import RpmVerif.Model.ShaWriter
-/-! Driver for C08. Ops `build8 <cfg>` and `shaw <script> <chunks> <data>`. -/
+import RpmVerif.Model.ShaSink
+import RpmVerif.Model.WithFileContent
+import RpmVerif.Model.Sign
+/-! Driver for C08. Ops `build8 <cfg>`, `shaw <script> <chunks> <data>`, `stale8`, `lazy8`, `sign08 <key> <api> <src> <cfg>`,
+`hist08 <ops> <package>`.
+
+`build8` / `sign08`: the model PREDICTS the digests. The builder's files with their contents are `WithFile.buildFilesC` over the
+request's `with_file` calls (contents regenerated from the seeds); the archive goes through `ShaSink.prepareDigests` — the cpio
+`Writer` on top of `Sha256Writer` on top of an all-accepting sink, standard or large-file form as `Bld.usesLargeFiles` says —
+which yields the text recorded under PAYLOADDIGESTALT; for `c=none` the payload IS the archive, so PAYLOADDIGEST is predicted
+too, for the real codecs the payload digest is taken from the harness' independent recomputation (`paysha`, the compressor's
+output is not modelled) and only its PLACE in the header is predicted. The header digest is the SHA-256 (Lean implementation,
+Driver/Hash.lean) of the model's own header bytes; RPMTAG_FILEDIGESTS is predicted text by text.
+`hist08`: any start package: `Hdr.parsePackage`, then after any sign / clear the recorded digest is the digest of
+`writeHeader` of the parsed main header (`Pipeline.history_header_digest_fresh`), before that the start package's own. -/
 namespace RpmVerif.Driver.C08
 open RpmVerif.Hdr RpmVerif.Bld RpmVerif.Driver RpmVerif.Driver.Bld RpmVerif.Io
 
-def ops : List String := ["build8", "shaw", "stale8", "lazy8"]
+def ops : List String := ["build8", "shaw", "stale8", "lazy8", "sign08", "hist08"]
 
 def tok (m : List String) (k : String) : String :=
   (m.findSome? fun t => if t.startsWith (k ++ "=") then some (t.drop (k.length + 1)).toString else none).getD "<missing>"
@@ -25,6 +39,56 @@ def chunksOf (step : Nat) (bs : Bytes) : List Bytes :=
 
 def hexStr (b : Bytes) : String := hexOfBytes b
 
+
+/-- `Sha256Writer` over the scripted sink through the STACKED model (`ShaSink.HSink.writeAll`, the machine `build8` runs): must
+agree with `ShaW.runH` (the model of the C08 theorems `alt_digest` …) on every generated script -/
+def runHSink (parts : List Bytes) (rs : List Resp) : Bytes × Bytes × Bool :=
+  let script : List RpmVerif.PWriter.Resp := rs.map fun r => match r with
+    | .ok n => .ok n | .intr => .intr | .fail => .fail
+  let rec go (ps : List Bytes) (h : RpmVerif.ShaSink.HSink) : RpmVerif.ShaSink.HSink × Bool :=
+    match ps with
+    | [] => (h, true)
+    | a :: r => match h.writeAll a with
+      | (.ok (), h') => go r h'
+      | (_, h') => (h', false)
+  let (h, ok) := go parts { inner := { script := script }, hashed := [] }
+  (h.inner.out, h.hashed, ok)
+
+structure Predicted where
+  archSha : String
+  paySha : String
+  hdrSha : String
+  fd : String
+  nfiles : Nat
+  large : Bool
+
+def strOf (b : Bytes) : String := String.ofList (b.map fun x => Char.ofNat x.toNat)
+
+/-- the digests of the package `build` returns for request `r`; `paysha` = the payload digest the harness recomputed -/
+def predict (args : List String) (r : Req) (paysha : String) : Option Predicted :=
+  let calls := r.files.map (·.call)
+  match RpmVerif.WithFile.buildFilesC sha256hex (fun _ => true) calls [] with
+  | .ok fes =>
+    let files : List RpmVerif.Cpio.FileIn := fes.map fun p => ⟨p.1.cpioPath, p.1.mode, p.2⟩
+    let large := usesLargeFiles r.cfg
+    match RpmVerif.ShaSink.prepareDigests (fun s => .ok s.out) sha256hex large 0 0 files {} with
+    | .ok d =>
+      let a := strOf d.archiveShaHex
+      let isNone : Bool := match kv args "c" with
+        | some c => (c.splitOn ":").head? == some "none"
+        | none => r.cfg.compression == .none
+      let pay := if isNone then strOf d.payloadShaHex else paysha
+      let hdr := mainHeader r.cfg r.now pay.toUTF8.toList a.toUTF8.toList
+      let x := strOf (sha256hex (writeHeader hdr))
+      let ds := r.cfg.files.map fun f => strOf f.shaHex
+      some ⟨a, pay, x, s!"{ds.length}:{hex16 (fnv (",".intercalate ds).toUTF8.toList)}", r.cfg.files.length, large⟩
+    | _ => none
+  | _ => none
+
+def sizeClass (r : Req) : String :=
+  let m := (r.files.map (·.size)).foldl max 0
+  if [32767, 32768, 32769, 65535, 65536, 65537, 131071, 131072, 131073].contains m then "-edge" else s!"-size{m / 50000}"
+
 def handle (op : String) (args : List String) (impl : String) : String :=
   match op, args with
   | "shaw", [script, chunks, data] =>
@@ -36,7 +100,11 @@ def handle (op : String) (args : List String) (impl : String) : String :=
       let parts := chunksOf (max step 1) bs
       let r := RpmVerif.ShaW.runH false parts rs
       let st := match r.2.2.1 with | .ok => "ok" | _ => "err"
-      let m := s!"{st} digest={hexStr (Hash.sha256L r.2.1)} accepted={hex16 (fnv r.1)}:{r.1.length}"
+      -- the stacked model of `build8` on the same script: same accepted bytes, same hashed bytes, same status
+      let r2 := runHSink parts rs
+      let agree := r2.1 == r.1 && r2.2.1 == r.2.1 && r2.2.2 == (st == "ok")
+      let m := if agree then s!"{st} digest={hexStr (Hash.sha256L r.2.1)} accepted={hex16 (fnv r.1)}:{r.1.length}"
+               else "models-disagree:ShaW.runH-vs-ShaSink.HSink"
       -- spec: the digest is the SHA-256 of the bytes the inner sink accepted (identified by fnv + length)
       let itoks := (impl.splitOn " ").filter (· ≠ "")
       let v := if tok itoks "accepted" == s!"{hex16 (fnv r.1)}:{r.1.length}" then
@@ -87,18 +155,69 @@ def handle (op : String) (args : List String) (impl : String) : String :=
       if !impl.startsWith "ok " then answer "ok" (if impl == "err" then "dontcare" else "fails:" ++ impl) "build-rejected" else
       let itoks := (impl.splitOn " ").filter (· ≠ "")
       let paysha := tok itoks "paysha"; let archsha := tok itoks "archsha"
-      let hdr := mainHeader r.cfg r.now paysha.toUTF8.toList archsha.toUTF8.toList
-      let x := String.ofList ((sha256hex (writeHeader hdr)).map fun b => Char.ofNat b.toNat)
-      let nf := r.cfg.files.length
-      let m := s!"ok paysha={paysha} archsha={archsha} pd={paysha} pda={archsha} hsha={x} hreal={x} fdg=true nfiles={nf} chsha={x}"
-      let v :=
-        if tok itoks "pd" != paysha then "fails:payload-digest"
-        else if tok itoks "pda" != archsha then "fails:archive-digest"
-        else if tok itoks "hsha" != tok itoks "hreal" then "fails:header-digest"
-        else if tok itoks "chsha" != tok itoks "hreal" then "fails:header-digest-after-clear"
-        else if tok itoks "fdg" != "true" then "fails:file-digest"
-        else "holds"
-      answer m v s!"files{min nf 2}-size{(r.files.map (·.size)).foldl max 0 / 50000}"
+      match predict args r paysha with
+      | none => answer "err" "fails:model-rejects-build" "build-model-rejected"
+      | some q =>
+        let x := q.hdrSha
+        let m := s!"ok paysha={q.paySha} archsha={q.archSha} pd={q.paySha} pda={q.archSha} hsha={x} hreal={x} fd={q.fd} fdg=true nfiles={q.nfiles} chsha={x}"
+        let v :=
+          if tok itoks "pd" != paysha then "fails:payload-digest"
+          else if tok itoks "pda" != archsha then "fails:archive-digest"
+          else if tok itoks "hsha" != tok itoks "hreal" then "fails:header-digest"
+          else if tok itoks "chsha" != tok itoks "hreal" then "fails:header-digest-after-clear"
+          else if tok itoks "fdg" != "true" then "fails:file-digest"
+          else "holds"
+        answer m v s!"files{min q.nfiles 2}{sizeClass r}{if q.large then "-stripped" else ""}"
+  | "sign08", key :: api :: src :: cfg =>
+    match parseReq cfg with
+    | none => badReq "cfg"
+    | some r =>
+      if !impl.startsWith "ok " then answer "ok" ("fails:" ++ impl.replace " " "_") "sign-rejected" else
+      let itoks := (impl.splitOn " ").filter (· ≠ "")
+      let paysha := tok itoks "paysha"; let archsha := tok itoks "archsha"
+      match predict cfg r paysha with
+      | none => answer "err" "fails:model-rejects-build" "build-model-rejected"
+      | some q =>
+        let x := q.hdrSha
+        -- signing replaces the signature header only: main header and payload, hence all their digests, are the built ones
+        -- (C10 history_bytes); the header digest recorded next to the signature is the true one (C08 sign_header_digest_fresh)
+        let m := s!"ok paysha={q.paySha} archsha={q.archSha} pd={q.paySha} pda={q.archSha} hsha={x} hreal={x} fd={q.fd} digests=true verify=true chsha={x}"
+        let v :=
+          if tok itoks "pd" != paysha then "fails:payload-digest-signed"
+          else if tok itoks "pda" != archsha then "fails:archive-digest-signed"
+          else if tok itoks "hsha" != tok itoks "hreal" then "fails:header-digest-signed"
+          else if tok itoks "chsha" != tok itoks "hreal" then "fails:header-digest-after-clear"
+          else if tok itoks "digests" != "true" then "fails:digests-signed"
+          else if tok itoks "verify" != "true" then "fails:verify-signed"
+          else "holds"
+        answer m v s!"sign-{key}-{api}-{src}{if q.large then "-stripped" else ""}"
+  | "hist08", [hops, pkgHex] =>
+    match bytesOfHex pkgHex with
+    | none => badReq "hex"
+    | some bs =>
+      match parsePackage bs with
+      | .ok p =>
+        let opl := (hops.splitOn ",").filter fun o => o != "" && o != "-"
+        let touched := opl.any fun o => o.startsWith "c" || o.startsWith "s" || o.startsWith "S"
+        let hb := writeHeader p.md.header
+        let hreal := hexOfBytes (sha256hex hb)
+        let recorded := match getString p.md.signature RpmVerif.Gen.SigTag.RPMSIGTAG_SHA256 with
+          | .ok d => hexOrDash d
+          | _ => "absent"
+        let hsha := if touched then hreal else recorded
+        let o := offsets p.md
+        let hdrsame := (bs.drop o.hdr).take (o.payload - o.hdr) == hb
+        let m := s!"ok hsha={hsha} hreal={hreal} hdrsame={boolStr hdrsame} paysame=true"
+        let itoks := (impl.splitOn " ").filter (· ≠ "")
+        let v :=
+          if !impl.startsWith "ok " then (if touched then "fails:" ++ impl.replace " " "_" else "dontcare")
+          else if touched && tok itoks "hsha" != tok itoks "hreal" then "fails:header-digest-after-history"
+          else if tok itoks "hdrsame" != "true" && hdrsame then "fails:main-header-changed"
+          else if tok itoks "paysame" != "true" then "fails:payload-changed"
+          else if touched then "holds" else "dontcare"
+        let startKind := if recorded == "absent" then "nodigest" else if recorded == hreal then "fresh" else "stale"
+        answer m v s!"hist-{startKind}-{if touched then (if opl.getLast? == some "w" then "touched-w" else "touched") else "untouched"}"
+      | _ => answer "err-parse" "dontcare" "hist-unparsable"
   | _, _ => badReq "args"
 
 end RpmVerif.Driver.C08
